@@ -224,6 +224,11 @@ class Server:
     # directory the master is started in (its START_CTX['cwd'], where a USR2 re-exec goes back to); None = the scratch
     # directory self.dir. Set it on the instance before start(); everything else (launcher, config, logs) stays in self.dir
     start_cwd = None
+    # python source the launcher runs before it hands over to gunicorn's run() - in the very process that becomes the master (for
+    # instance: create a listening socket at a known descriptor number, as a socket-activating service manager would). "" = nothing,
+    # the launcher is then exactly the console script. Set it on the instance before start(). After a USR2 the launcher is executed
+    # again (with GUNICORN_PID in the environment): the source has to cope with that itself
+    launcher_prelude = ""
 
     def __init__(self, tag, worker_class="sync", workers=1, settings=None, bind="tcp", conf_extra="",
                  env=None, app_source=None, argv_extra=None, default_conf=False):
@@ -302,7 +307,8 @@ class Server:
         # (START_CTX: sys.executable + sys.argv) then starts from the same place with the same import path
         launcher = os.path.join(self.dir, "gunicorn_launcher.py")
         with open(launcher, "w") as f:
-            f.write("import sys\nfrom gunicorn.app.wsgiapp import run\nif __name__ == '__main__':\n    sys.exit(run())\n")
+            f.write("import sys\n" + (self.launcher_prelude or "") +
+                    "from gunicorn.app.wsgiapp import run\nif __name__ == '__main__':\n    sys.exit(run())\n")
         self.proc = subprocess.Popen([common.PY, launcher] + ([] if self.default_conf else ["-c", self.conf_path]) +
                                      self.argv_extra + ["vapp:app"],
                                      cwd=self.start_cwd or self.dir, env=env, stdout=open(self.stderr_path, "ab"),
